@@ -899,6 +899,7 @@ func genHeartbeat(outDir string) (string, error) {
 	// the goroutine: for { select { case <-ticker.C: refresh ; case <-stop: return } }
 	loopExits, refreshOnTick, counterAtomic, storeLocked := false, false, false, false
 	thresholdMs, cutMs := 0, 0
+	pacing, pacingWhy := 2, "no goroutine function"
 	if g := startIn.spawned; g != nil {
 		var params []string
 		if g.Type.Params != nil {
@@ -914,6 +915,7 @@ func genHeartbeat(outDir string) (string, error) {
 				stopParam = params[i]
 			}
 		}
+		pacing, pacingWhy = hbPacing(startIn, g, stopParam)
 		ast.Inspect(g.Body, func(n ast.Node) bool {
 			switch x := n.(type) {
 			case *ast.SelectStmt:
@@ -1033,6 +1035,9 @@ func genHeartbeat(outDir string) (string, error) {
 	if !refreshOnTick {
 		note("the ticker case of the heartbeat goroutine does not draw the counter (atomic add) and then store the data")
 	}
+	if pacing == 1 {
+		note("the refresh case of the heartbeat goroutine is paced by a timer armed anew in every iteration: %s", pacingWhy)
+	}
 	if thresholdMs == 0 {
 		note("period rule `if d > K { d -= K' }` not found in the heartbeat goroutine")
 	}
@@ -1091,6 +1096,8 @@ func genHeartbeat(outDir string) (string, error) {
 	sb.WriteString("def counterAtomic : Bool := " + b2(counterAtomic) + "\n")
 	sb.WriteString("def storeUnderManagerLock : Bool := " + b2(storeLocked) + "\n")
 	sb.WriteString(fmt.Sprintf("/-- period rule: `if d > thresholdMs { d -= cutMs }` -/\ndef thresholdMs : Nat := %d\ndef cutMs : Nat := %d\n", thresholdMs, cutMs))
+	sb.WriteString("/-- what paces the loop: 0 = one ticker created before the loop, 1 = a timer / ticker / time.After created or re-armed\n    in every iteration, 2 = not recognised -/\n")
+	sb.WriteString(fmt.Sprintf("def pacing : Nat := %d\ndef pacingWhy : String := %s\n", pacing, strconv.Quote(pacingWhy)))
 	sb.WriteString("def notes : List String := [" + strings.Join(qn, ", ") + "]\n\n")
 	sb.WriteString("end Spine.Generated.Heartbeat\n")
 	if err := writeFile(outDir, "Heartbeat.lean", sb.String()); err != nil {
